@@ -576,6 +576,8 @@ def run_op_(roots, i, o, enc):
         setattr(x, o[1], list(o[2]))
     elif k == 'strict':
         x.strict = o[1]
+    elif k == 'setattr_own':          # obj.name = obj.<attr>: the user aliases one of the object's own lists under a second attribute
+        setattr(x, o[1], x.__dict__[o[2]])
     elif k == 'lappend':
         getattr(x, o[1]).append(o[2])
     elif k == 'lreplace':
@@ -690,7 +692,8 @@ def c_consts(enc):
     vals = [enc.code('-'), enc.code(-1), enc.code(np.dtype('<U1')), enc.code(np.dtype('int64')), enc.code(np.dtype('object')),
             enc.code(np.dtype('float64')), enc.code(False), enc.code('python'), enc.code(0.0), enc.code('_'),
             enc.code(np.dtype('float64')), enc.code(float)]
-    return '(mkConsts %s)' % ' '.join(cz(v) for v in vals)
+    # last field: the memo policy of copy(); the driver evaluates the case under both policies (see harness/heap_driver.ml)
+    return '(mkConsts %s false)' % ' '.join(cz(v) for v in vals)
 
 
 def c_span_src(sd, enc, span_locs):
@@ -737,6 +740,8 @@ def c_ops(case, ev, out, enc, kinds):
         return ['(OSetAttrList %s %s)' % (cz(enc.code(o[1])), czl(enc.code(v) for v in o[2]))]
     if k == 'strict':
         return ['(OSetStrict %s)' % cz(enc.code(bool(o[1])))]
+    if k == 'setattr_own':
+        return ['(OAliasAttr %s %s)' % (cz(enc.code(o[1])), czl([akey(enc.code(o[2]))]))]
     if k == 'lappend':
         return ['(OListAppend %s %s)' % (cz(enc.code(o[1])), cz(enc.code(o[2])))]
     if k == 'lreplace':
@@ -1374,6 +1379,11 @@ def gen_op(rng, s, fresh_float, alias, tracer):
         if s.kind == 'model':
             return ['setattr', rng.choice(['engine'] + ATTR_NAMES), rng.choice([0, 1, 'x'])] if rng.random() < 0.5 else ['setattr', rng.choice(['lags', 'leads']), rng.randint(0, 1)]
         return ['setattr', rng.choice(ATTR_NAMES), rng.choice([0, 1, 'x'])]
+    if q < 0.518:
+        # unusual but legal: one of the object's own lists stored under a second attribute (aliasing between two __dict__ entries:
+        # copy() with a memo per entry separates them in the copy, a single-memo deepcopy would keep them together - both allowed)
+        own = ['names', 'check', 'endogenous', 'index', '_attributes'] if s.kind == 'model' else ['index', '_attributes', 'names']
+        return ['setattr_own', rng.choice(ATTR_NAMES), rng.choice(own)]
     if q < 0.56:
         if s.kind == 'model' and rng.random() < 0.7:
             return ['setattrlist', rng.choice(['check', 'endogenous']), [rng.choice(fv)] if fv else []]
